@@ -129,7 +129,9 @@ Valid0(c) ==
                                           A("h4", Agg("LIST", 0, -1, "r2"), TRUE)>>
                    ELSE <<A("g1", T("REAL"), TRUE)>>)))],
    funcs |-> IF c.rules THEN <<[name |-> "f1", nparams |-> 1]>> ELSE <<>>,
-   aux |-> c.aux]
+   aux |-> c.aux,
+   \* aux3: the second schema has the names the first one takes from it only through its own full USE of a third
+   aux3 |-> "chain3" \in DOMAIN c]
 TypeShapes(deep) == {[k |-> "aggs"]} \cup {[k |-> "chain", of |-> o, names |-> p] : o \in {"simple", "enum", "select", "enumsel"},
                                                    p \in (IF deep THEN Perm3 ELSE {<<"m1", "m2", "m3">>, <<"m3", "m1", "m2">>, <<"m2", "m3", "m1">>})}
 (* identifiers that are keywords or well-known names of the target languages (C++, Python) or of Part 21 but     *)
@@ -174,6 +176,8 @@ Choices(deep) ==
      a \in (IF deep THEN BOOLEAN ELSE {FALSE}), k \in (IF deep THEN 1..3 ELSE {2, 3}), r \in BOOLEAN,
      x \in BOOLEAN}
   \cup {[inh |-> "chain", sx |-> "none", abs |-> FALSE, ak |-> 2, rules |-> FALSE, aux |-> FALSE, ts |-> t] : t \in TypeShapes(deep)}
+  \* three schemas: m takes remote_e / remote_t from aux by name, aux has them only because it USEs aux2 as a whole
+  \cup {[inh |-> "chain", sx |-> "none", abs |-> FALSE, ak |-> 2, rules |-> r, aux |-> TRUE, ts |-> [k |-> "base"], chain3 |-> TRUE] : r \in BOOLEAN}
   \cup {[inh |-> "redecl", sx |-> "none", abs |-> FALSE, ak |-> k, rules |-> FALSE, aux |-> FALSE, ts |-> [k |-> "base"]] : k \in {2, 3}}
   \* a schema with exactly one entity (and the named types, among them aggregates): whatever the generators keep
   \* per "previous entity" or per "first entity" has only this one to work with
@@ -215,6 +219,10 @@ Mutants(c) ==
   \* again by a derived attribute
   \cup (IF c.inh = "chain" THEN {[M("inherited_redeclared", 3, "a1", "OVERLOADED_ATTR") EXCEPT !.pos = "indirect"]} ELSE {})
   \cup (IF c.inh # "none" THEN {[M("inherited_redeclared", 2, "a1", "OVERLOADED_ATTR") EXCEPT !.pos = "derive"]} ELSE {})
+  \* the fault sits in a schema that the main schema only uses (the resolver has to get there through the interface)
+  \cup (IF c.aux THEN {[M(cl[1], 0, cl[2], cl[3]) EXCEPT !.pos = "in_used_schema"] :
+                          cl \in {<<"undef_type", "nosuch_t", "UNDEFINED_TYPE">>, <<"undef_supertype", "nosuch_e", "UNKNOWN_SUPERTYPE">>,
+                                  <<"select_cycle", "", "SELECT_LOOP">>}} ELSE {})
   \* defined types that rename each other in a circle (two, three, one): there is no underlying type
   \cup {[M("type_cycle", 0, "", "CIRCULAR_REFERENCE") EXCEPT !.pos = p] : p \in {"two", "three", "self", "two_used"}}
   \cup {M("select_cycle", 0, "", "SELECT_LOOP")}
